@@ -293,20 +293,94 @@ def _coercion(ctx: Ctx) -> None:
     r = Explore(ccfg).run({ccfg.entry}, env_for(target))
     ctx.check(ccfg.exit in r and not any(ccfg.attempt(x) & r for x in raises), "RF-ABS", "coerce-accepts:identical", co, rets[0], ok="an input that already has the declared schema is accepted without a raise",
               bad="an input with exactly the declared schema can be rejected")
-    # same field set, other order / compatible types: reconciled by select(names of the target) and cast(target), never returned as is
-    reorder = (("b", "float64"), ("a", "int64"))
+    # same field set: every batch the function returns has been brought to the declared schema.  Schemas are modelled as
+    # tuples of (name, type, nullable); `x.select(names)` reorders, `x.cast(target)` yields the target when the column
+    # order already matches (pyarrow refuses a cast across differently ordered names) — everything else is "cannot decide".
+    T3 = tuple((n, ty, True) for n, ty in target)
+
+    def set_batch(env: dict[str, object], sch: tuple) -> None:
+        for k in [k for k in env if k == b or k.startswith(b + ".")]:
+            env.pop(k)
+        names = [f[0] for f in sch]
+        env.update({f"{b}.schema": sch, f"{b}.schema.names": names, f"{b}.column_names": names, f"{b}.num_columns": len(names)})
+
+    def env3(sch: tuple) -> dict[str, object]:
+        env: dict[str, object] = {t: T3, f"{t}.names": [f[0] for f in T3]}
+        set_batch(env, sch)
+        return env
+
+    class _Raises(Exception):
+        pass
+
+    def schema_of(e: ast.expr, env: dict[str, object]):
+        if isinstance(e, ast.Name):
+            if e.id == b:
+                return env.get(f"{b}.schema")
+            return None
+        if isinstance(e, ast.Call) and isinstance(e.func, ast.Attribute) and e.func.attr in ("select", "cast") and len(e.args) == 1 and not e.keywords:
+            inner = schema_of(e.func.value, env)
+            if inner is None:
+                return None
+            try:
+                arg = mini_eval(e.args[0], env)
+            except AnalysisError:
+                return None
+            if e.func.attr == "select":
+                by = {f[0]: f for f in inner}
+                if not isinstance(arg, (list, tuple)) or any(n not in by for n in arg):
+                    raise _Raises()
+                return tuple(by[n] for n in arg)
+            if arg != T3:
+                return None
+            if [f[0] for f in inner] != [f[0] for f in T3]:
+                raise _Raises()  # pyarrow: "Target schema's field names are not matching the batch's field names"
+            return T3
+        return None
+
+    def on_assign(st: ast.AST, env: dict[str, object]):
+        tg, v = assign_parts(st)
+        if len(tg) == 1 and isinstance(tg[0], ast.Name) and tg[0].id == b and v is not None:
+            try:
+                sch = schema_of(v, env)
+            except _Raises:
+                return None
+            if sch is None:
+                raise AnalysisError(f"C10: cannot model `{txt(st)[:70]}` in _coerce_input_batch")
+            set_batch(env, sch)
+            return env
+        return None
+
     sel = [c for c in calls(co) if last_attr(c) == "select"]
     cast = [c for c in calls(co) if last_attr(c) == "cast" and c.args and txt(c.args[0]) == t]
-    r = Explore(ccfg).run({ccfg.entry}, env_for(reorder))
-    first_ret_unchanged = False
-    # a return reachable without passing a select for reordered input hands the state a batch in the wrong column order
-    sdone = _union(ccfg.done(c) for c in sel)
-    rr = Explore(ccfg).run({ccfg.entry}, env_for(reorder), stop=sdone)
-    first_ret_unchanged = ccfg.exit in rr
-    ctx.check(bool(sel) and not first_ret_unchanged and ccfg.exit in r, "RF-ABS", "coerce-reorders:same-fields-other-order", co, sel[0] if sel else rets[0],
-              ok="same field set in another order is accepted and passes through select(<declared names>) before it is returned",
-              bad="same field set in another order is returned without being reordered to the declared schema (or is rejected)")
-    ctx.check(bool(cast), "RF-ABS", "coerce-casts-to-declared-schema", co, cast[0] if cast else rets[0], ok="type differences are reconciled by cast(<declared schema>)", bad="no cast to the declared schema: compatibly typed inputs reach the state with the wrong types")
+    witnesses = {
+        "identical": T3,
+        "reordered": (T3[1], T3[0]),
+        "retyped": (("a", "int32", True), T3[1]),
+        "nullable-flipped": (("a", "int64", False), T3[1]),
+        "reordered+retyped": (T3[1], ("a", "int32", True)),
+        "reordered+nullable-flipped": (("b", "float64", False), T3[0]),
+    }
+    for wname, sch in witnesses.items():
+        returned: list[tuple[ast.Return, object]] = []
+
+        def visit(nid: int, env: dict[str, object], _acc=returned) -> None:
+            node = ccfg.nodes[nid]
+            if node.kind == "attempt" and isinstance(node.stmt, ast.Return) and node.stmt.value is not None:
+                try:
+                    _acc.append((node.stmt, schema_of(node.stmt.value, env)))
+                except _Raises:
+                    pass  # the returned expression itself raises: nothing is handed to the state
+
+        Explore(ccfg).run({ccfg.entry}, env3(sch), on_assign=on_assign, visit=visit, strict={b, t})
+        if any(v is None for _r, v in returned):
+            raise AnalysisError(f"C10: a value returned by _coerce_input_batch cannot be modelled (witness {wname})")
+        wrong = [(r0, v) for r0, v in returned if v != T3]
+        ctx.check(bool(returned) and not wrong, "RF-ABS", f"coerce-returns-declared-schema:{wname}", co, wrong[0][0] if wrong else (returned[0][0] if returned else rets[0]),
+                  ok=f"input {[f for f in sch]} with the declared field set is accepted and every value returned for it has exactly the declared schema (reordered and cast as needed)",
+                  bad=(f"for input schema {list(sch)} a batch with schema {list(wrong[0][1])} is returned instead of the declared {list(T3)}: the state receives an input that is not of the declared input schema"
+                       if wrong else f"an input with the declared field set ({wname}) is rejected on every path instead of being coerced"))
+    ctx.check(bool(sel) and bool(cast), "RF-ABS", "coerce-uses-select-and-cast", co, (sel or cast or rets)[0], ok="reconciliation uses select(<declared names>) and cast(<declared schema>)",
+              bad="select() or cast(<declared schema>) is gone from _coerce_input_batch")
     if cast:
         h = None
         for tr in try_protecting(ccfg, cast[0]):
